@@ -241,6 +241,13 @@ Theorem C12_source_matches_model_atomicity :
 Proof. vm_compute. reflexivity. Qed.
 Print Assumptions C12_source_matches_model_atomicity.
 
+(* round 6: Login plugins receive the content unaltered; doneCh is closed by the read loop only, after the
+   in-flight handler returned; an http group membership is given back only by a proxy that joined *)
+Theorem C12_source_matches_model_round6 :
+  c12_source_ok6 c12_plugin_login c12_done_closers c12_readloop c12_http_group_order = true.
+Proof. vm_compute. reflexivity. Qed.
+Print Assumptions C12_source_matches_model_round6.
+
 Theorem C12_sync_handlers_meaning : forall m, In m c12_sync_required ->
   In (m, false) c12_handlers /\ ~ In (m, true) c12_handlers.
 Proof. apply handlers_ok_sound. vm_compute. reflexivity. Qed.
